@@ -10,6 +10,13 @@ BRIDGE = [
     ('check_prog', 'ext_check_prog = check_prog', 'reflexivity.'),
     ('valid_transitions', 'ext_valid_transitions = valid_table', 'reflexivity.'),
 ]
+
+
+def K_ALL_KINDS(ctx):
+    """thorough tier: the exhaustive enumerations are evaluated in the kernel as well, not only by extraction"""
+    return (1,) if ctx.thorough else ()
+
+
 ASSUMPTIONS = ['DAGs as add_node accepts them from new_operator / the CSV reader: parents are earlier '
                'operators, no duplicate parent entries (note N1 in DESIGN.md)']
 R, Cc = 2, 4
